@@ -4,24 +4,31 @@ From Circ Require Import Model.Auth Model.VHost Proofs.AuthP.
 Import ListNotations.
 Open Scope N_scope.
 
-Lemma mem_str_In : forall x l, mem_str x l = true <-> In x l.
+Lemma addr_eqb_eq : forall a b, addr_eqb a b = true <-> a = b.
+Proof.
+  intros [x|] [y|]; simpl; split; intro H; try reflexivity; try discriminate.
+  - apply str_eqb_eq in H. subst. reflexivity.
+  - injection H as ->. apply str_eqb_refl.
+Qed.
+
+Lemma mem_addr_In : forall x l, mem_addr x l = true <-> In x l.
 Proof.
   intros x l. induction l as [|y l IH]; simpl.
   - split; [discriminate | tauto].
-  - rewrite orb_true_iff, IH, str_eqb_eq. split; intros [H|H]; auto.
+  - rewrite orb_true_iff, IH, addr_eqb_eq. split; intros [H|H]; auto.
 Qed.
 
 Definition set_xfh (r : vreq) (x : str) : vreq :=
   {| remote_ip := remote_ip r; host := host r; xfh := x; path := path r |}.
 
 (* trusted, as the property words it *)
-Definition is_trusted (tg : option (list str)) (ip : str) : Prop :=
+Definition is_trusted (tg : option (list (option str))) (ip : option str) : Prop :=
   match tg with None => True | Some l => In ip l end.
 
 Lemma trusted_iff : forall tg r, trusted tg r = true <-> is_trusted tg (remote_ip r).
 Proof.
   intros [l|] r; simpl.
-  - apply mem_str_In.
+  - apply mem_addr_In.
   - tauto.
 Qed.
 
@@ -36,10 +43,10 @@ Section P.
     /\ domain (Some l) r = host r.
   Proof.
     intros domains l r x Hn.
-    assert (Hf : forall y, mem_str (remote_ip (set_xfh r y)) l = false).
-    { intro y. simpl. destruct (mem_str (remote_ip r) l) eqn:E; [|reflexivity].
-      apply mem_str_In in E. contradiction. }
-    assert (Hr : mem_str (remote_ip r) l = false) by (apply (Hf [])).
+    assert (Hf : forall y, mem_addr (remote_ip (set_xfh r y)) l = false).
+    { intro y. simpl. destruct (mem_addr (remote_ip r) l) eqn:E; [|reflexivity].
+      apply mem_addr_In in E. contradiction. }
+    assert (Hr : mem_addr (remote_ip r) l = false) by (apply (Hf [])).
     unfold on_request, domain, trusted. rewrite Hf, Hr. simpl. split; reflexivity.
   Qed.
 
@@ -64,7 +71,17 @@ Section P.
     is_trusted tg (remote_ip r).
   Proof.
     intros domains tg r x Hd. destruct tg as [l|]; simpl; [|exact I].
-    destruct (mem_str (remote_ip r) l) eqn:E; [apply mem_str_In; exact E|].
-    exfalso. apply Hd. apply untrusted_ignored. intro Hin. apply mem_str_In in Hin. rewrite Hin in E. discriminate.
+    destruct (mem_addr (remote_ip r) l) eqn:E; [apply mem_addr_In; exact E|].
+    exfalso. apply Hd. apply untrusted_ignored. intro Hin. apply mem_addr_In in Hin. rewrite Hin in E. discriminate.
+  Qed.
+  (* a peer without an address (remote.ip = None: a UNIX-socket peer) is an ordinary untrusted
+     sender unless the configured list names None itself *)
+  Lemma addressless_untrusted : forall domains l r x,
+    remote_ip r = None -> ~ In None l ->
+    on_request urljoin domains (Some l) (set_xfh r x) = on_request urljoin domains (Some l) r
+    /\ domain (Some l) r = host r.
+  Proof.
+    intros domains l r x Hn Hl. apply untrusted_ignored. rewrite Hn. exact Hl.
   Qed.
 End P.
+
